@@ -116,6 +116,10 @@ func c01edgeChunks(c *Ctx, r *Result) {
 	}
 	// input is the extracted chunk, nominal dims come from dw.chunkDims
 	r.Hold("C01.7", c.Name(fn)+"#edge-chunk-expanded", c.InstrPos(expand), c.calleeName(expand)+" receives the extracted chunk and the nominal chunk dimensions")
+	// the padding is zero: the buffer the clipped rows are copied into is freshly made on every path (or cleared first)
+	if ef := expand.Call.StaticCallee(); ef != nil {
+		c01zeroPadding(c, r, ef, "C01.7")
+	}
 	// consumers: pipeline.Apply / WriteAtAddress / len() for Allocate and the index receive the expanded value (or the filtered value derived from it)
 	derives := func(v ssa.Value) bool {
 		seen := map[ssa.Value]bool{}
@@ -625,6 +629,37 @@ func c01sizeDiscipline(c *Ctx, r *Result) {
 			}
 			tests = append(tests, test{b, eq, buf, errExit})
 		}
+		// a size test may live in a helper: a call f(.., x, ..) whose nil-error edge dominates the write counts when every
+		// successful return of f lies behind f's own len(param) == dataSize test
+		for _, site := range callsIn(fn) {
+			call, isCall := site.(*ssa.Call)
+			callee := site.Common().StaticCallee()
+			if !isCall || callee == nil || !inModule(fnPkgPath(callee)) || errResultIndex(callee.Signature) < 0 {
+				continue
+			}
+			pi := c01sizeValidatorParam(callee)
+			if pi < 0 || pi >= len(call.Call.Args) {
+				continue
+			}
+			// the err == nil edge
+			for _, ev := range errValuesOfCall(call) {
+				for _, ref := range *ev.Referrers() {
+					bo, ok := ref.(*ssa.BinOp)
+					if !ok || (bo.Op != token.NEQ && bo.Op != token.EQL) {
+						continue
+					}
+					for _, r2 := range *bo.Referrers() {
+						if ifi, ok := r2.(*ssa.If); ok {
+							pass := ifi.Block().Succs[1]
+							if bo.Op == token.EQL {
+								pass = ifi.Block().Succs[0]
+							}
+							tests = append(tests, test{ifi.Block(), pass, call.Call.Args[pi], true})
+						}
+					}
+				}
+			}
+		}
 		for _, site := range callsIn(fn) {
 			n := c.calleeName(site)
 			var data ssa.Value
@@ -1103,4 +1138,98 @@ func odometerRowsSource(fn *ssa.Function, blk *ssa.BasicBlock) ssa.Value {
 		}
 	}
 	return nil
+}
+
+func errValuesOfCall(call *ssa.Call) []ssa.Value {
+	vals, _ := errValuesOf(call)
+	return vals
+}
+
+// c01sizeValidatorParam: index of the []byte parameter p of fn such that every successful return of fn is reached only through
+// the equal edge of a comparison len(p) == (something reading DatasetWriter.dataSize); -1 if fn is not such a validator.
+func c01sizeValidatorParam(fn *ssa.Function) int {
+	if len(fn.Blocks) == 0 {
+		return -1
+	}
+	for pi, p := range fn.Params {
+		for _, b := range fn.Blocks {
+			ifi, ok := b.Instrs[len(b.Instrs)-1].(*ssa.If)
+			if !ok {
+				continue
+			}
+			bo, ok := ifi.Cond.(*ssa.BinOp)
+			if !ok || (bo.Op != token.NEQ && bo.Op != token.EQL) {
+				continue
+			}
+			x, y := bo.X, bo.Y
+			if !valueReadsField(y, "hdf5.DatasetWriter.dataSize", 0) {
+				x, y = y, x
+			}
+			if !valueReadsField(y, "hdf5.DatasetWriter.dataSize", 0) || lenOperand(x) != ssa.Value(p) {
+				continue
+			}
+			eq := b.Succs[1]
+			if bo.Op == token.EQL {
+				eq = b.Succs[0]
+			}
+			all := true
+			n := 0
+			for _, ret := range returnsOf(fn) {
+				if !isSuccessReturn(ret) {
+					continue
+				}
+				n++
+				if !edgeDominates(b, eq, ret.Block()) {
+					all = false
+				}
+			}
+			if all && n > 0 {
+				return pi
+			}
+		}
+	}
+	return -1
+}
+
+// c01zeroPadding: in the function that expands a boundary chunk, every copy destination is (a slice of) a buffer made in this
+// call - a reused buffer still holds the previous chunk where this one has its padding - unless clear() of it dominates the copy.
+func c01zeroPadding(c *Ctx, r *Result, fn *ssa.Function, rule string) {
+	n := 0
+	for _, site := range callsIn(fn) {
+		call, ok := site.(*ssa.Call)
+		if !ok {
+			continue
+		}
+		b, ok := call.Call.Value.(*ssa.Builtin)
+		if !ok || b.Name() != "copy" {
+			continue
+		}
+		n++
+		base := call.Call.Args[0]
+		for {
+			if sl, isSl := base.(*ssa.Slice); isSl {
+				base = sl.X
+				continue
+			}
+			break
+		}
+		fresh := false
+		if _, isMk := base.(*ssa.MakeSlice); isMk {
+			fresh = true
+		}
+		if !fresh {
+			// cleared before use?
+			for _, s2 := range callsIn(fn) {
+				if c2, ok := s2.(*ssa.Call); ok {
+					if b2, ok := c2.Call.Value.(*ssa.Builtin); ok && b2.Name() == "clear" && instrDominates(c2, call) {
+						fresh = true
+					}
+				}
+			}
+		}
+		r.Check(fresh, rule, c.Name(fn)+"#padding-buffer-is-zeroed", c.InstrPos(call), "the nominal-shape buffer is made (zeroed) in this call; a buffer kept from an earlier chunk carries that chunk's bytes into the padding, which later reads as data when the dataset grows")
+	}
+	if n == 0 {
+		r.Undec(rule, c.Name(fn)+"#padding-buffer-is-zeroed", c.Pos(fn.Pos()), "no row copy found in the expansion function")
+	}
 }
